@@ -29,6 +29,8 @@ AllF == {"none", "pre", "post"}
 C12Quick == {Cfg(3, 3, 1, FALSE, FALSE, {"none"}, TRUE), Cfg(3, 3, 2, FALSE, FALSE, {"none"}, FALSE)}
 C12Tiny1 == {Cfg(3, 3, 1, FALSE, FALSE, {"none"}, FALSE)}
 C12Tiny2F == {Cfg(3, 3, 2, FALSE, FALSE, {"none", "pre"}, FALSE)}
+ProbeA == {Cfg(4, 4, 1, FALSE, FALSE, {"none"}, TRUE)}
+ProbeB == {Cfg(4, 4, 2, FALSE, TRUE, AllF, FALSE)}
 C12Thorough == {Cfg(3, 3, 2, FALSE, FALSE, {"none"}, TRUE), Cfg(4, 4, 1, FALSE, FALSE, {"none"}, TRUE), Cfg(4, 4, 2, FALSE, FALSE, {"none"}, TRUE),
                 Cfg(3, 4, 1, FALSE, FALSE, {"none"}, TRUE), Cfg(4, 3, 1, FALSE, FALSE, {"none"}, TRUE),
                 Cfg(3, 3, 1, FALSE, TRUE, AllF, FALSE), CfgF(3, 3, 2, FALSE, TRUE, AllF, FALSE, "SDMF"), Cfg(4, 4, 2, FALSE, TRUE, {"none", "pre"}, FALSE)}
